@@ -175,6 +175,18 @@ CLAIMED["C13"] = {
     "ref": "DESIGN.md section 5 (C13)",
 }
 
+CLAIMED["C10"] = {
+    "text": "Table obligations decided exhaustively on the source: the two call sites and the two cache_clear partials "
+            "use distinct literal cache names (the two functions' histories cannot corrupt one another), and every "
+            "access to cache/reminders/reminder_keys lies under the lock (method-level `with lock` or lock-holding "
+            "callers only). The run() algorithm itself (wrap detection, offsets, disappearing/reappearing devices, "
+            "cache_clear) is checked by a bounded enumeration of snapshot histories against a reference model "
+            "(labelled bounded; a proof of run() is work in progress).",
+    "note": "bounded stand-in for _WrapNumbers.run/_remove_dead_reminders (nested dict/defaultdict/set state); "
+            "threading.Lock mutual exclusion assumed.",
+    "ref": "DESIGN.md section 5 (C10)",
+}
+
 NOT_YET = "check not built yet (work in progress, see DESIGN.md section 7)"
 NA = {}
 
